@@ -321,9 +321,17 @@ def embedded_refs(inner, k):
     return bytes([0x02, 0x9F, 0x53, 0x6A]) + _mb(len(tbl)) + tbl + body
 
 
+def cubic_doc(k):
+    """the cubic family of C01c_ex_cubic: k references to a NUL-free embedded document that holds k references to a string of
+    k bytes: about 3.5 k + 70 bytes, more than k^3 bytes of XML"""
+    tbl = b"y" * (k + 1)
+    inner = bytes([0x02, 0x9F, 0x53, 0x6A]) + _mb(len(tbl)) + tbl + bytes([0x54]) + bytes([0x83, 0x01]) * k + bytes([0x01])
+    return embedded_refs(inner, k)
+
+
 def embedded_cases(seed, n_levels=3):
     rng = Rng(seed, 77)
-    cases = []
+    cases = [raw_case(cubic_doc(k), "embedded-cubic", root_end=0) for k in (4, 8, 16, 24)]
     for d in (0, 1, 2, 3, 5, 8, 13, 21):
         cases.append(raw_case(embedded_chain(d), "embedded-chain", root_end=0))
         cases.append(raw_case(embedded_chain(d, leaf=bytes([0x02, 0x9F, 0x53, 0x6A, 0x00, 0x14])), "embedded-chain", root_end=0))
@@ -332,3 +340,161 @@ def embedded_cases(seed, n_levels=3):
         doc = embedded_refs(doc, 1 + rng.below(4))
         cases.append(raw_case(doc, "embedded-refs", root_end=0))
     return cases
+
+
+# ---------------------------------------------------------------------------------------------
+# object reuse: ONE WBXMLParser, several documents; every document must be reported as if it were alone
+# ---------------------------------------------------------------------------------------------
+
+def _root_tok(L):
+    for r in L["tags_rows"]:
+        if r[1] == 0:
+            return r[2]
+    return 5
+
+
+def simple_doc(T, lid, textual=False, ver=3, charset=106, strtbl=b"", body=None, pub=None):
+    """header + body (default: the empty root element of the language's first page-0 tag)"""
+    L = T.langs[lid]
+    if textual:
+        strtbl = L["pub_text"].encode() + b"\x00" + strtbl
+        pubb = b"\x00" + _mb(0)
+    else:
+        pubb = _mb(L["pub_num"] if pub is None else pub)
+    cs = b"" if ver == 0 else _mb(charset)
+    return bytes([ver]) + pubb + cs + _mb(len(strtbl)) + strtbl + (bytes([_root_tok(L)]) if body is None else body)
+
+
+def reuse_sequences(seed, T, pool, n_random):
+    """sequences (lists of cases) for one parser object.  The crafted ones cross the case splits of the header and of
+    the per-document state: numeric id -> string-table id, table -> no table, forced language -> none, charset given ->
+    absent, error -> good document, code page / current element / nesting left over; then random pairs and triples of
+    the pool."""
+    rng = Rng(seed, 78)
+    R = lambda bs, kind, forced=0, meta=0: raw_case(bs, kind, forced, meta)
+    seqs = []
+    num = [l for l in T.order if T.langs[l]["pub_num"] != 1]
+    txt = [l for l in T.order if T.langs[l]["pub_text"]]
+    # 1. numeric public id, then a string-table public id (and back); every textual language after some numeric one
+    for i, lt in enumerate(txt):
+        ln = num[(i * 7 + 3) % len(num)]
+        if ln == lt:
+            ln = num[(i * 7 + 4) % len(num)]
+        a, b = R(simple_doc(T, ln), "reuse-numeric-id"), R(simple_doc(T, lt, textual=True), "reuse-textual-id")
+        seqs.append([a, b, a, b] if i % 3 == 0 else [a, b])
+        if i % 4 == 0:
+            seqs.append([b, a, b])
+    # 2. string table, then none (references must dangle), then a shorter one
+    wml = T.langs[1104]
+    w = lambda tbl, body: simple_doc(T, 1104, strtbl=tbl, body=body)
+    with_tbl = R(w(b"abcd\x00efgh\x00", bytes([0x7F, 0x83, 0x00, 0x83, 0x05, 0x01])), "reuse-table")
+    def D(bs, kind):       # dangling: refused by a fresh parser, must be refused on a reused one
+        c = raw_case(bs, kind)
+        c["must_fail"] = True
+        return c
+    no_tbl_ref = D(w(b"", bytes([0x7F, 0x83, 0x02, 0x01])), "reuse-no-table-ref")
+    no_tbl_lit = R(w(b"", bytes([0x44, 0x00, 0x01])), "reuse-no-table-literal")
+    no_tbl_pub = D(bytes([0x03, 0x00, 0x00, 0x6A, 0x00, 0x45]), "reuse-no-table-pubidx")
+    no_tbl_pub2 = D(bytes([0x03, 0x00, 0x00, 0x6A, 0x00, 0x45, 0x83, 0x05, 0x01]), "reuse-no-table-pubidx")
+    short_tbl = D(w(b"ab\x00", bytes([0x7F, 0x83, 0x05, 0x01])), "reuse-short-table")
+    txt_si = R(simple_doc(T, 1301, textual=True), "reuse-textual-id")
+    for s in ([with_tbl, no_tbl_ref], [with_tbl, no_tbl_lit], [with_tbl, no_tbl_pub], [txt_si, no_tbl_pub], [txt_si, no_tbl_pub2],
+              [with_tbl, short_tbl], [with_tbl, no_tbl_ref, with_tbl], [txt_si, no_tbl_ref, no_tbl_pub2]):
+        seqs.append(s)
+    # 3. forced language, then none
+    ota = R(simple_doc(T, 1901, ver=1, pub=1), "reuse-forced", forced=1901)
+    unknown_pub = R(simple_doc(T, 1104, pub=1), "reuse-unknown-pubid")
+    si = R(simple_doc(T, 1301), "reuse-numeric-id")
+    forced_wml = R(simple_doc(T, 1301), "reuse-forced", forced=1104)
+    for s in ([ota, unknown_pub], [ota, si], [forced_wml, si], [forced_wml, unknown_pub], [si, forced_wml, si], [ota, txt_si]):
+        seqs.append(s)
+    # 4. charset given, then absent (WBXML 1.0 has no charset field); meta charset given, then none
+    body_str = bytes([0x7F, 0x03, 0xC3, 0xA9, 0x00, 0x01])
+    ascii_doc = R(simple_doc(T, 1104, charset=3, body=body_str), "reuse-charset-ascii")
+    v10 = R(simple_doc(T, 1104, ver=0, body=body_str), "reuse-charset-absent")
+    cs0 = R(simple_doc(T, 1104, charset=0, body=body_str), "reuse-charset-zero")
+    cs0_meta = R(simple_doc(T, 1104, charset=0, body=body_str), "reuse-charset-meta", meta=3)
+    latin = R(simple_doc(T, 1104, charset=4, body=body_str), "reuse-charset-latin1")
+    ucs2 = R(simple_doc(T, 1104, charset=1000, body=body_str), "reuse-charset-ucs2")
+    for s in ([ascii_doc, v10], [ascii_doc, cs0], [cs0_meta, cs0], [cs0_meta, v10], [latin, v10], [ucs2, cs0], [latin, cs0, ascii_doc, v10]):
+        seqs.append(s)
+    # 5. an error document, then a good one: left-over nesting, code pages, current element
+    deep = [c for c in pool if c["kind"] in ("nested-1001", "nested-1500")][:2]
+    lim = [c for c in pool if c["kind"] in ("nested-1000", "nested-999")][:2]
+    for a in deep:
+        for b in lim:
+            seqs.append([a, b])
+            seqs.append([a, a, b])
+    sml = T.langs[2101]
+    page1_left = R(simple_doc(T, 2101, ver=2, body=bytes([0x6D, 0x00, 0x01, 0x53, 0x03, 0x61, 0x00, 0x01, 0x01])), "reuse-page-left")
+    page0_tok = R(simple_doc(T, 2101, ver=2, body=bytes([0x6D, 0x5A, 0x01, 0x01])), "reuse-page0-token")
+    page1_trunc = R(simple_doc(T, 2101, ver=2, body=bytes([0x6D, 0x00, 0x01, 0x53])), "reuse-page-left-error")
+    apage = R(simple_doc(T, 1202, body=bytes([0xBF, 0x00, 0x01, 0x05, 0x01, 0x01])), "reuse-attr-page-left")
+    apage0 = R(simple_doc(T, 1202, body=bytes([0xBF, 0x05, 0x01, 0x01])), "reuse-attr-page0-token")
+    wv_typed_trunc = R(simple_doc(T, 2301, body=bytes([0x45, 0x4B])), "reuse-typed-element-error")
+    wv_opaque = R(simple_doc(T, 2301, body=bytes([0x45, 0xC3, 0x02, 0x01, 0x00, 0x01])), "reuse-untyped-opaque")
+    wv_typed = R(simple_doc(T, 2301, body=bytes([0x45, 0x4B, 0xC3, 0x02, 0x01, 0x00, 0x01, 0x01])), "reuse-typed-opaque")
+    for s in ([page1_left, page0_tok], [page1_trunc, page0_tok], [apage, apage0], [wv_typed_trunc, wv_opaque], [wv_typed, wv_opaque],
+              [wv_typed_trunc, wv_typed, wv_opaque]):
+        seqs.append(s)
+    errs = [c for c in pool if c["kind"] in ("prefix", "byteflip", "random-body", "grammar-nonwf") or c["kind"].startswith("field-")]
+    good = [c for c in pool if c["kind"] in ("corpus", "grammar", "grammar-strict", "systematic")]
+    for k in range(n_random):
+        if errs and good and k % 2 == 0:
+            s = [errs[rng.below(len(errs))], good[rng.below(len(good))]]
+            if k % 6 == 0:
+                s.append(errs[rng.below(len(errs))])
+                s.append(good[rng.below(len(good))])
+        else:
+            src = good if good else pool
+            s = [src[rng.below(len(src))] for _ in range(2 + rng.below(2))]
+        seqs.append(s)
+    return [s for s in seqs if sum(len(c["bytes"]) for c in s) < 60000]
+
+
+def rline(seq):
+    return "r %d %s" % (len(seq), " ".join("%d %d %s" % (c["forced"], c["meta"], c["bytes"].hex() if c["bytes"] else "-") for c in seq))
+
+
+def run_reuse(harness, driver, seqs):
+    """runs the sequences on one parser object each; every document's answer must be the answer of the C for that document
+    alone (fresh parser) and the model's.  Returns dict(documents, sequences, history_dependent, model_disagreements, crashes)."""
+    ra, rcr = common.run_lines(harness, [rline(s) for s in seqs])
+    docs = {}
+    for s in seqs:
+        for c in s:
+            docs.setdefault(c["line"], c)
+    dl = list(docs)
+    fa, fcr = common.run_lines(harness, dl)
+    ma, _ = common.run_lines(driver, dl)
+    fresh, model = dict(zip(dl, fa)), dict(zip(dl, ma))
+    hist, mdis, accepted, n = [], [], [], 0
+    kinds = {}
+    for s, a in zip(seqs, ra):
+        parts = a.split(" || ") if a is not None else [None] * len(s)
+        if len(parts) != len(s):
+            parts = [None] * len(s)
+        for i, (c, pa) in enumerate(zip(s, parts)):
+            n += 1
+            kinds[c["kind"]] = kinds.get(c["kind"], 0) + 1
+            rec = {"kind": "reuse:" + "+".join(x["kind"] for x in s), "position": i,
+                   "sequence": [{"forced": x["forced"], "meta": x["meta"], "wbxml": x["bytes"].hex() or "-", "must_fail": x.get("must_fail")} for x in s],
+                   "c_reused": (pa or "")[:1500], "c_fresh": (fresh[c["line"]] or "")[:1500], "model_alone": (model[c["line"]] or "")[:1500]}
+            if c.get("must_fail"):
+                rec["must_fail"] = True
+                if pa is None or not pa.startswith("err"):
+                    accepted.append(rec)
+            if pa != fresh[c["line"]]:
+                hist.append(rec)
+            else:
+                m = model[c["line"]]
+                if pa is None or m is None or (pa != m and not (pa.startswith("err") and m.startswith("err"))):
+                    mdis.append(rec)
+    return {"documents": n, "sequences": len(seqs), "history_dependent": hist, "model_disagreements": mdis,
+            "accepted_must_fail": accepted, "crashes": rcr + fcr, "kinds": kinds}
+
+
+def replay_sequence(rp):
+    """the sequence of a reuse replay file as cases"""
+    return [raw_case(bytes.fromhex(x["wbxml"]) if x["wbxml"] != "-" else b"", "replay", int(x.get("forced", 0)), int(x.get("meta", 0)),
+                     must_fail=x.get("must_fail")) for x in rp["sequence"]]
